@@ -6,7 +6,7 @@
       0<=f<6 /\ 0<=l<=30 /\ 0<=k<4^l /\ c = f*2^61 + (2k+1)*4^(30-l). *)
 From Coq Require Import ZArith List Bool Floats Reals.
 From Geo Require Import Base.GoPrim Gen.CellIDFull Model.CellIDTables
-  Base.F64Arith Proofs.C01_Tables Proofs.C01_Algebra Proofs.C01_IJ Proofs.C01_Advance Proofs.C01_Iter Proofs.C01_Point Proofs.C01_Text Proofs.C01_Hilbert Proofs.C01_Inverse Proofs.C01_Nbr Proofs.C01_WrapInside Proofs.StUV_Mono.
+  Base.F64Arith Proofs.C01_Tables Proofs.C01_Algebra Proofs.C01_IJ Proofs.C01_Advance Proofs.C01_Iter Proofs.C01_Point Proofs.C01_Text Proofs.C01_Hilbert Proofs.C01_Inverse Proofs.C01_Nbr Proofs.C01_WrapInside Proofs.C01_Nbr2 Proofs.StUV_Mono.
 (* the hand models compared with Go by the observer (built with this file: one make target) *)
 From Geo Require Model.C01Obs.
 From Geo Require Import Model.CellIDNbr.
@@ -250,8 +250,9 @@ Print Assumptions c01_grid_positions.
     when the vertex of the level-`level` ancestor chosen by the bits of the cell's leaf (i,j) is interior
     to the face, the four entries are the ancestor (which contains c) and the three cells of that level
     around the vertex: valid, of the requested level, pairwise distinct, at the stated grid positions (closed).
-    TODO: that the chosen vertex is the one closest to c (bit 30-level-1 of i,j <-> quadrant), the
-    3-entry case at cube corners and cross-face entries (H-WRAP) — [S] complete-set oracle on every run. *)
+    [c01_vertex_neighbors_all_cases] below covers vertices on a face side and at cube corners.
+    TODO: that the chosen vertex is the one closest to c (bit 30-level-1 of i,j <-> quadrant) and the
+    grid position of cross-face entries (H-WRAP) — [S] complete-set oracle on every run. *)
 Theorem c01_vertex_neighbors_same_face : forall c f l a b level, at_pos c f l a b -> 0 <= level < l ->
   exists i j o, s2_CellID_faceIJOrientation c = (f, i, j, o) /\
   let A := i / 2 ^ (30 - level) in let B := j / 2 ^ (30 - level) in
@@ -267,14 +268,47 @@ Print Assumptions c01_vertex_neighbors_same_face.
 
 (** AllNeighbors (hand model Model/CellIDNbr.v, compared with Go on every run): the loop terminates
     with the documented 4 * (size / nbrSize) + 4 entries, for every valid cell and level >= its level.
-    TODO (not closed): per-entry statement for AllNeighbors (each same-face entry is
-    Parent (cellIDFromFaceIJ f i' j') level, hence by c01_grid_positions a valid cell of the requested
-    level at position (i'/nbrSize, j'/nbrSize), disjoint from c and touching it — the arithmetic on
-    the loop's coordinates is what is missing); checked by [S] (complete-set oracle) on every run. *)
+    Per entry ([c01_all_neighbors_entries], closed): EVERY returned cell (same-face or wrapped) is a valid
+    cell of the requested level; its leaf coordinates (i',j') lie on the ring around the cell's square
+    (within one neighbour size, not inside the square), and whenever they are on the cell's face the entry
+    is the cell at grid position (i'/nbrSize, j'/nbrSize) and does not intersect c.
+    TODO (not closed): grid position of the wrapped (cross-face) entries on the neighbouring face (H-WRAP);
+    checked by [S] (complete-set oracle against the cube model) on every run. *)
 Theorem c01_all_neighbors_count : forall c f l k level, rep c f l k -> l <= level <= 30 ->
   length (AllNeighbors c level) = Z.to_nat (4 * 2 ^ (level - l) + 4).
 Proof. exact AllNeighbors_count. Qed.
 Print Assumptions c01_all_neighbors_count.
+
+Theorem c01_all_neighbors_entries : forall c f l a b level, at_pos c f l a b -> l <= level <= 30 ->
+  Forall (nbr_ok c f l a b level) (AllNeighbors c level).
+Proof. exact AllNeighbors_entries. Qed.
+Print Assumptions c01_all_neighbors_entries.
+
+(** cellIDFromFaceIJWrap returns a valid leaf for every (f,i,j) (closed) *)
+Theorem c01_wrap_always_valid_leaf : forall f i j, exists f' k, rep (s2_cellIDFromFaceIJWrap f i j) f' 30 k.
+Proof. exact wrap_valid. Qed.
+Print Assumptions c01_wrap_always_valid_leaf.
+
+(** VertexNeighbors in all cases: vertex interior to the face, on a face side (one of isame/jsame false) or
+    at a cube corner (both false: exactly three entries).  Every entry is a valid cell of the requested
+    level; the first is the ancestor (contains c); the entries whose position stays on the face are at
+    (A+di,B), (A,B+dj), (A+di,B+dj). *)
+Theorem c01_vertex_neighbors_all_cases : forall c f l a b level, at_pos c f l a b -> 0 <= level < l ->
+  exists i j o, s2_CellID_faceIJOrientation c = (f, i, j, o) /\
+  let A := i / 2 ^ (30 - level) in let B := j / 2 ^ (30 - level) in
+  let di := if negb (Z.land i (2 ^ (30 - (level + 1))) =? 0) then 1 else -1 in
+  let dj := if negb (Z.land j (2 ^ (30 - (level + 1))) =? 0) then 1 else -1 in
+  let isame := (0 <=? A + di) && (A + di <? 2 ^ level) in
+  let jsame := (0 <=? B + dj) && (B + dj <? 2 ^ level) in
+  exists n0 n1 n2 rest, VertexNeighbors c level = n0 :: n1 :: n2 :: rest /\
+    (if isame || jsame then exists n3, rest = [n3] /\ (exists f' k', rep n3 f' level k') /\
+                                       (isame && jsame = true -> at_pos n3 f level (A + di) (B + dj))
+     else rest = []) /\
+    n0 = s2_CellID_Parent c level /\ s2_CellID_Contains n0 c = true /\ at_pos n0 f level A B /\
+    (exists f' k', rep n1 f' level k') /\ (exists f' k', rep n2 f' level k') /\
+    (isame = true -> at_pos n1 f level (A + di) B) /\ (jsame = true -> at_pos n2 f level A (B + dj)).
+Proof. exact VertexNeighbors_general. Qed.
+Print Assumptions c01_vertex_neighbors_all_cases.
 
 (** points -------------------------------------------------------------------- *)
 Theorem c01_point_leaf_is_valid : forall p, exists f k, 0 <= f < 6 /\ rep (s2_cellIDFromPoint p) f 30 k /\
